@@ -18,7 +18,7 @@
 From Coq Require Import List Bool ZArith QArith Qminmax Qabs.
 From Splinkv Require Import Base.TV.
 Import ListNotations.
-Open Scope Q_scope.
+Local Open Scope Q_scope.
 
 (* ------------------------------------------------------------------------------------ *)
 (* Part 1 *)
